@@ -4,7 +4,7 @@
 # BEFORE any rule was added for that round = detection at delivery).
 import json,os,re,sys,glob
 V='/verif'; tag=sys.argv[1]
-res=json.load(open(V+'/seeded/RESULTS.json'))
+res=json.load(open(os.environ.get('META_RESULTS',V+'/seeded/RESULTS.json')))
 for d in sorted(glob.glob(V+'/seeded/*-%sm*'%tag)):
     seed=os.path.basename(d)
     if os.path.exists(d+'/meta.json') or not os.path.exists(d+'/demo_output_with_patch.txt'): continue
